@@ -186,6 +186,13 @@ def check(case, ctx):
             cur = must_return("sequential application", fn, cur, n, **call_kwargs(c2, {n: targets[n]}))
         compare(cur, exp, exp_dims, "multi-axis call vs sequential calls", case)
 
+    # history independence: the same call again, after the other calls on this Grid (incl. one with another boundary
+    # treatment), gives the same result
+    other = {"boundary": "extend" if any(rules[n] != "extend" for n in case["op_axes"]) else "fill", "fill_value": 41.5}
+    must_return("call with another boundary treatment", fn, da, list(case["op_axes"]), **dict(call_kwargs(dict(case, to_spelling="dict"), targets), **other))
+    again = must_return(f"Grid.{case['op']} (repeated)", fn, da, spell_axis(case["op_axes"], case["axis_spelling"]), **kw)
+    compare(again, exp, exp_dims, "the same call repeated after other calls on the same Grid", case)
+
     shifts = [f"{case['data_pos'][n]}>{targets[n]}" for n in case["op_axes"]]
     classes = [f"op:{case['op']}", f"naxes:{len(case['op_axes'])}"] + [f"shift:{s}" for s in shifts]
     classes += [f"rule:{rules[n]}" for n in case["op_axes"]]
